@@ -3,6 +3,7 @@ package checks
 import (
 	"bytes"
 	"fmt"
+	"math"
 	"math/rand/v2"
 	"os"
 	"sync"
@@ -97,6 +98,18 @@ func c13Core(run *mon.Run) {
 						c13Mismatch(run, a.name, "Reset-Write-SumHash", msg, got, want, map[string]any{"align": off})
 					}
 					run.Eval(3)
+				}
+				// the input as the front of a larger caller buffer: the digest is unchanged and nothing
+				// behind the input is written (a hasher must not append to its argument)
+				sp := withSpare(msg)
+				got1 := reused.ComputeHash(sp)
+				ok1 := spareIntact(sp, msg)
+				reused.Reset()
+				_, _ = reused.Write(sp)
+				got2 := reused.SumHash()
+				run.Eval(2)
+				if !bytes.Equal(got1, want) || !bytes.Equal(got2, want) || !ok1 || !spareIntact(sp, msg) {
+					run.Violate("C13:"+a.name+":input-with-spare-capacity", fmt.Sprintf("len %d: ComputeHash ok=%v Write+SumHash ok=%v, caller memory intact after ComputeHash=%v after Write=%v", l, bytes.Equal(got1, want), bytes.Equal(got2, want), ok1, spareIntact(sp, msg)), map[string]any{"len": l})
 				}
 				run.SetAdd("lengths."+a.name, fmt.Sprint(l))
 				run.Shape(fmt.Sprintf("%s|len%d", a.name, l))
@@ -309,10 +322,22 @@ func c13KMAC(run *mon.Run) {
 			key := mon.RandBytes(r, kl)
 			cust := mon.RandBytes(r, []int{0, 3, r.IntN(40)}[kl%3])
 			size := []int{128, 32, 1 + r.IntN(300)}[kl%3]
-			h, err := hash.NewKMAC_128(key, cust, size)
+			// key and customizer are handed over as fronts of larger buffers and overwritten afterwards:
+			// the object must neither write behind them nor keep referring to them
+			keyArg, custArg := withSpare(key), withSpare(cust)
+			h, err := hash.NewKMAC_128(keyArg, custArg, size)
 			if err != nil {
 				run.Violate("C13:kmac:constructor-refuses-valid", fmt.Sprintf("key length %d refused: %v", kl, err), nil)
 				return
+			}
+			if !spareIntact(keyArg, key) || !spareIntact(custArg, cust) {
+				run.Violate("C13:kmac:constructor-touches-caller-memory", fmt.Sprintf("key length %d, customizer length %d: the constructor wrote to its arguments' buffers", kl, len(cust)), nil)
+			}
+			for i := range keyArg {
+				keyArg[i] ^= 0xff
+			}
+			for i := range custArg {
+				custArg[i] ^= 0xff
 			}
 			if h.Size() != size || h.Algorithm() != hash.KMAC128 {
 				run.Violate("C13:kmac:metadata", "Size()/Algorithm() wrong", nil)
@@ -325,6 +350,10 @@ func c13KMAC(run *mon.Run) {
 				if got := h.ComputeHash(msg); !bytes.Equal(got, want) {
 					run.Violate("C13:kmac:ComputeHash", fmt.Sprintf("KMAC128 key length %d, customizer length %d, output %d, message length %d: got %x, SP 800-185 gives %x", kl, len(cust), size, ml, []byte(got), want),
 						map[string]any{"key": mon.Hex(key), "customizer": mon.Hex(cust), "size": size, "msg": mon.Hex(msg), "key_len": kl})
+					break
+				}
+				if sp := withSpare(msg); !bytes.Equal(h.ComputeHash(sp), want) || !spareIntact(sp, msg) {
+					run.Violate("C13:kmac:input-with-spare-capacity", fmt.Sprintf("KMAC128 ComputeHash of a %d-byte message slice with spare capacity: digest ok=%v, caller memory intact=%v", ml, bytes.Equal(h.ComputeHash(msg), want), spareIntact(sp, msg)), map[string]any{"key_len": kl, "size": size, "msg_len": ml})
 					break
 				}
 				h.Reset()
@@ -447,8 +476,19 @@ func c13KMAC(run *mon.Run) {
 	if err == nil {
 		run.Violate("C13:kmac:short-key-accepted", "nil key accepted", nil)
 	}
-	for _, sz := range []int{-1, -2, -1 << 31, -1 << 62} {
-		_, err := hash.NewKMAC_128(make([]byte, 16), nil, sz)
+	// every negative power of two and its neighbours (a bit-length computed as size*8 wraps for large magnitudes)
+	negs := []int{-1, -2, -3, -1000, math.MinInt, math.MinInt + 1, math.MinInt + 2}
+	for k := 2; k < 63; k++ {
+		negs = append(negs, -1<<k, -1<<k+1, -1<<k-1)
+	}
+	for _, sz := range negs {
+		if sz >= 0 {
+			continue
+		}
+		var err error
+		if run.Guard("NewKMAC_128(negative size)", sz, func() { _, err = hash.NewKMAC_128(make([]byte, 16), nil, sz) }) {
+			continue
+		}
 		run.Eval(1)
 		if err == nil {
 			run.Violate("C13:kmac:negative-size-accepted", fmt.Sprintf("size %d accepted", sz), nil)
